@@ -1,6 +1,7 @@
 package main
 
 import (
+	"unicode"
 	"fmt"
 	"go/types"
 	"strings"
@@ -149,22 +150,6 @@ func init() {
 	})
 }
 
-func isSpaceRune(r rune) bool {
-	switch r {
-	case '\t', '\n', '\v', '\f', '\r', ' ', 0x85, 0xA0:
-		return true
-	}
-	if r < 0x100 {
-		return false
-	}
-	unsupported("unicode.IsSpace of non-Latin1 rune %U", r)
-	return false
-}
-
-func isLetterRune(r rune) bool {
-	if r < 0x80 {
-		return (r >= 'a' && r <= 'z') || (r >= 'A' && r <= 'Z')
-	}
-	unsupported("unicode.IsLetter of non-ASCII rune %U", r)
-	return false
-}
+// concrete runes: the real library
+func isSpaceRune(r rune) bool  { return unicode.IsSpace(r) }
+func isLetterRune(r rune) bool { return unicode.IsLetter(r) }
